@@ -709,3 +709,6 @@ PROPS["C15"]["explanation"] += (" System level (Props/SysMerkle.lean): in the mo
                                 "– true for a genuinely new node (run_write_replaces_heads_new).")
 
 PROPS["C19"]["oracle_fields"] = PROPS["C19"]["oracle_fields"] + ["restore"]
+
+for _pid in ("C12", "C16", "C13", "C01", "C09"):
+    PROPS[_pid]["oracle_fields"] = (PROPS[_pid].get("oracle_fields") or []) + ["pid", "gid"] if PROPS[_pid].get("oracle_fields") is not None else None
